@@ -53,7 +53,7 @@ def lifecycle_encoder(cls, E, members):
              requires=["forall(%s, lambda s: %s)" % (L, " or ".join("s == %s.%s" % (E, m) for m in members))],
              ensures=runs_clauses("ready", "result[0]", L, E + ".READY", "len(%s)" % L, "finish_margin")
                      + runs_clauses("working", "result[1]", L, E + ".WORKING", "len(%s)" % L, "finish_margin"),
-             modifies=[],
+             modifies=[], pure=True,
              loops={0: inv})
 
 
@@ -80,7 +80,7 @@ def resource_encoder(cls, E, members):
              ensures=runs_clauses("free", "result[0]", L, E + ".FREE", "len(%s)" % L, "finish_margin")
                      + runs_clauses("working", "result[1]", L, E + ".WORKING", "len(%s)" % L, "finish_margin")
                      + runs_clauses("absence", "result[2]", L, E + ".ABSENCE", "len(%s)" % L, "finish_margin"),
-             modifies=[],
+             modifies=[], pure=True,
              loops={0: inv})
 
 
